@@ -43,6 +43,8 @@ callees) are enumerated exhaustively; names are symbolic strings where the engin
                                    tree is not modified (a copy is transformed)
   NamesVisitor.find                the distinct names of the expression in order of first occurrence
 refuted on the unchanged tree (real, reproduced natively - see the builder's report):
+  TypeCheckingVisitor.update_aliases   type_checking_names is a class attribute that is never reset: a guard found in one module (`from typing import TYPE_CHECKING as FLAG`) makes
+                   `if FLAG:` of every module searched later a block to execute - into that module's live namespace
   get_arg_type     a module global that is a tuple and is named in an annotation is replaced by its second element (Union[TYPES] with TYPES = (int, str) -> str)
   get_types        a quoted annotation that is more than a bare name ("Optional[int]") stays a string on the source path (reached when another annotation of
                    the signature fails in get_type_hints): the parameter is then dropped from the parser
@@ -482,6 +484,780 @@ def gt_raises(ctx, st, exc):
         ctx.oblige("raises", "it-is-the-exception-get_type_hints-raised(the caller gets the documented NameError)" + tag, exc.cls == "NameError" and exc.origin == "get_type_hints" if d["hints"] == "get_type_hints-raises" else exc.origin == "get_arg_type")
 
 
+# ============================================================================================================ get_arg_type
+GA_FORMS = ["A", "Optional[A]", "Dict[str, A]", "Union[A]", "A | None"]
+GA_BINDINGS = ["a-class", "a-tuple-valued-module-global(int, str)", "alias-is-an-exception", "not-bound", "a-stub-assignment(A = Union[int, str])"]
+
+
+def show(v):
+    """Canonical text of a (modelled) type: structural for parametrised hints, identity label for everything else."""
+    if isinstance(v, Rec) and v.cls == "hint":
+        return "hint(" + show(v.attrs["__origin__"]) + "; " + ", ".join(show(a) for a in v.attrs["__args__"]) + ")"
+    if isinstance(v, Rec):
+        return v.cls + "#" + str(v.attrs.get("__name__", ""))
+    if isinstance(v, tuple):
+        return "(" + ", ".join(show(x) for x in v) + ")"
+    return repr(v)
+
+
+def names_in(node, out=None):
+    """The Name ids of an expression, first occurrence first (contract of NamesVisitor.find)."""
+    out = [] if out is None else out
+    if isinstance(node, Rec):
+        if node.cls == "Name" and node.attrs["id"] not in out:
+            out.append(node.attrs["id"])
+        for k in sorted(node.attrs):
+            if k != "ctx":
+                names_in(node.attrs[k], out)
+    elif isinstance(node, (list, tuple)):
+        for x in node:
+            names_in(x, out)
+    return out
+
+
+def py_eval(u, node, ns, origin="exec"):
+    """What CPython's evaluation of the expression forms used here yields in namespace ns (trusted semantics of exec for Name / Constant / Subscript / Tuple / `|`)."""
+    if node.cls == "Name":
+        if node.attrs["id"] not in ns:
+            raise PyRaise(ExcVal("NameError", (f"name '{node.attrs['id']}' is not defined",), origin=origin))
+        return ns[node.attrs["id"]]
+    if node.cls == "Constant":
+        return u.NoneType if node.attrs["value"] is None else node.attrs["value"]
+    if node.cls == "Tuple":
+        return tuple(py_eval(u, e, ns, origin) for e in node.attrs["elts"])
+    if node.cls == "Subscript":
+        base, idx = py_eval(u, node.attrs["value"], ns, origin), py_eval(u, node.attrs["slice"], ns, origin)
+        if not (isinstance(base, Rec) and "__getitem__" in base.methods):
+            raise PyRaise(ExcVal("TypeError", ("not subscriptable",), origin=origin))
+        return base.methods["__getitem__"](None, base, (idx,), {})
+    if node.cls == "BinOp":
+        return u.g(u.Union, py_eval(u, node.attrs["left"], ns, origin), py_eval(u, node.attrs["right"], ns, origin))
+    raise PyRaise(ExcVal("SyntaxError", (node.cls,), origin=origin))
+
+
+def py_exec(u, tree, ns):
+    for st_ in tree.attrs["body"]:
+        if st_.cls in ("Assign", "AnnAssign"):
+            tgt = st_.attrs["targets"][0] if st_.cls == "Assign" else st_.attrs["target"]
+            ns[tgt.attrs["id"]] = py_eval(u, st_.attrs["value"], ns)
+
+
+def ga_setup(ctx):
+    classes(ctx)
+    u = U()
+    caller = ["plain-namespace(get_types: name -> object)", "stub-resolver-pairs(name -> (source, value))"][ctx.choose(2, "caller")]
+    pairs = caller.startswith("stub")
+    form = GA_FORMS[ctx.choose(len(GA_FORMS), "annotation")]
+    binding = GA_BINDINGS[ctx.choose(len(GA_BINDINGS), "binding-of-A")]
+    if binding == "a-tuple-valued-module-global(int, str)" and (pairs or form != "Union[A]"):
+        raise PathEnd()
+    if binding in ("alias-is-an-exception", "a-stub-assignment(A = Union[int, str])") and not pairs:
+        raise PathEnd()
+    py = [(3, 9), (3, 12)][ctx.choose(2, "python-version")]
+    OPT = Rec("typing Optional", attrs={"__name__": "Optional"})
+    OPT.methods["__getitem__"] = lambda c, s_, a, k: u.g(u.Union, a[0], u.NoneType)
+    node = {"A": lambda: name("A"), "Optional[A]": lambda: subscript(name("Optional"), name("A")), "Dict[str, A]": lambda: subscript(name("Dict"), N("Tuple", elts=[name("str"), name("A")], ctx=N("Load"))),
+            "Union[A]": lambda: subscript(name("Union"), name("A")), "A | None": lambda: bitor(name("A"), const(None))}[form]()
+    alias_exc = ExcVal("NotImplementedError", ("'A' from 'pkg' not in builtins, module or stub",), origin="stub-alias")
+    stub_assign = N("Assign", targets=[N("Name", id="A", ctx=N("Store"))], value=subscript(name("Union"), N("Tuple", elts=[name("int"), name("str")], ctx=N("Load"))))
+    values = {"Optional": OPT, "Dict": u.Dict, "Union": u.Union, "str": u.str, "int": u.int, "unused": Rec("class unused", attrs={"__name__": "unused"})}
+    a_value = {"a-class": u.A, "a-tuple-valued-module-global(int, str)": (u.int, u.str), "alias-is-an-exception": alias_exc, "not-bound": None, "a-stub-assignment(A = Union[int, str])": stub_assign}[binding]
+    if binding != "not-bound":
+        values["A"] = a_value
+    aliases = {k: (("src:" + k, v) if pairs else v) for k, v in values.items()}
+    seen = {}
+
+    def exec_model(c, a, k):
+        tree, g, l = a
+        seen["exec"] = (tree, g is l, dict(g))
+        c.event("exec", tree)
+        py_exec(u, tree, g)
+
+    def backport(c, s_, a, k):
+        c.event("backport", a[0], a[1])
+        out = Rec("Module", attrs={"body": list(a[0].attrs["body"]), "backported": True})
+        seen["backported"] = out
+        return out
+
+    type_alias = Rec("typing_extensions TypeAlias")
+    calls = {"NamesVisitor().find": lambda c, a, k: names_in(a[0]), "compile": lambda c, a, k: a[0], "exec": exec_model, "str": lambda c, a, k: a[0].args[0] if isinstance(a[0], ExcVal) else str(a[0]),
+             "BackportTypeHints": lambda c, a, k: Rec("BackportTypeHints", methods={"backport": backport}), "typing_extensions_import": lambda c, a, k: type_alias}
+    calls["ast.parse"] = lambda c, a, k: N("Module", body=[N("Assign", targets=[N("Name", id="___arg_type___", ctx=N("Store"))], value=const(0))])
+    calls["ast.fix_missing_locations"] = lambda c, a, k: a[0]
+    consts = dict(AST_CONSTS, **{"sys.version_info": py})
+    return Setup(env={"arg_ast": node, "aliases": aliases}, calls=calls, consts=consts,
+                 data=dict(u=u, caller=caller, pairs=pairs, form=form, binding=binding, py=py, node=node, node_dump=dump(node), aliases=aliases, aliases0=dict(aliases), values=values, OPT=OPT, alias_exc=alias_exc, seen=seen,
+                           stub_assign=stub_assign))
+
+
+def ga_tag(d):
+    return f"[{d['form']};A:{d['binding']};{d['caller']};py{d['py'][0]}.{d['py'][1]}]"
+
+
+def ga_frame(ctx, d, tag):
+    ctx.oblige("frame", "the-caller's-namespace-is-not-modified(no name added,removed,rebound);the-annotation-node-is-not-modified" + tag,
+               set(d["aliases"]) == set(d["aliases0"]) and all(d["aliases"][k] is v for k, v in d["aliases0"].items()) and dump(d["node"]) == d["node_dump"])
+
+
+def ga_expected(d):
+    """The type the annotation denotes when every name stands for the object the caller's namespace binds it to."""
+    u = d["u"]
+    ns = {k: v for k, v in d["values"].items()}
+    if d["binding"] == "a-stub-assignment(A = Union[int, str])":
+        ns["A"] = u.g(u.Union, u.int, u.str)
+    A = ns["A"]
+    return {"A": lambda: A, "Optional[A]": lambda: u.g(u.Union, A, u.NoneType), "Dict[str, A]": lambda: u.g(u.Dict, u.str, A), "Union[A]": lambda: u.g(u.Union, *(A if isinstance(A, tuple) else (A,))),
+            "A | None": lambda: u.g(u.Union, A, u.NoneType)}[d["form"]]()
+
+
+def ga_post(ctx, st, result):
+    d = st.data
+    tag = ga_tag(d)
+    ga_frame(ctx, d, tag)
+    if d["binding"] in ("alias-is-an-exception", "not-bound"):
+        ctx.oblige("post", "an-annotation-naming-something-the-namespace-cannot-supply-never-evaluates-to-a-type" + tag, False)
+        return
+    want = ga_expected(d)
+    ctx.oblige("post", "the-result-is-what-the-annotation-denotes-with-every-name-bound-to-the-object-the-caller's-namespace-binds-it-to(for (source, value) pairs: the value)" + tag,
+               show(result) == show(want), note=f"want {show(want)} got {show(result)}")
+    ex = d["seen"].get("exec")
+    bp = [e for e in ctx.events if e[0] == "backport"]
+    if d["py"] < (3, 10):
+        ctx.oblige("post", "on-Python<3.10-the-tree-that-runs-is-the-back-ported-one(`X | Y`, list[...] are not evaluable there),back-ported-once-with-the-namespace-it-runs-in" + tag,
+                   ex is not None and len(bp) == 1 and ex[0] is d["seen"].get("backported") and ex[1])
+    else:
+        ctx.oblige("post", "on-Python>=3.10-the-annotation-is-evaluated-as-written(no back-port)" + tag, ex is not None and not bp and ex[1])
+
+
+def ga_raises(ctx, st, exc):
+    d = st.data
+    tag = ga_tag(d)
+    ga_frame(ctx, d, tag)
+    if d["binding"] == "not-bound":
+        ctx.oblige("raises", f"a-name-the-namespace-does-not-bind:the-caller-gets-KeyError-naming-it(got {exc.cls}@{exc.origin})" + tag, exc.cls == "KeyError" and exc.args == ("A",))
+    elif d["binding"] == "alias-is-an-exception":
+        ctx.oblige("raises", f"a-name-whose-alias-is-an-exception-stays-unbound:NameError,caused-by-that-exception(got {exc.cls}@{exc.origin})" + tag, exc.cls == "NameError" and exc.cause is d["alias_exc"])
+    else:
+        ctx.oblige("raises", f"an-annotation-whose-names-are-all-bound-evaluates-without-exception(got {exc.cls}@{exc.origin})" + tag, False)
+
+
+# ============================================================================================================ resolve_forward_refs
+RF_HINTS = ["class int", "'A'(alias)", "'Zed'(no alias)", "List[int]", "Optional[int]", "Dict[str, List[Optional[int]]]", "bare type", "Tuple[int, ...]", "empty"]
+
+
+def rf_setup(ctx):
+    classes(ctx)
+    u = U()
+    form = RF_HINTS[ctx.choose(len(RF_HINTS), "arg_type")]
+    py = [(3, 9), (3, 12)][ctx.choose(2, "python-version")]
+    h = {"'A'(alias)": lambda: "A", "'Zed'(no alias)": lambda: "Zed", "Tuple[int, ...]": lambda: u.g(u.tuple, u.int, Rec("Ellipsis"))}.get(form, lambda: hint_form(u, form))()
+    aliases = {"A": u.A, "int": u.int}
+    logger = [None, Rec("logger")][ctx.choose(2, "logger")]
+    return Setup(env={"arg_type": h, "aliases": aliases, "logger": logger}, calls=u.calls(), consts=dict(u.consts(), **{"sys.version_info": py}), inline={"has_subtypes": MOD + "has_subtypes"},
+                 data=dict(u=u, form=form, h=h, aliases=aliases, aliases0=dict(aliases), py=py))
+
+
+def rf_post(ctx, st, result):
+    d = st.data
+    tag = f"[{d['form']};py{d['py'][0]}.{d['py'][1]}]"
+    if d["form"] == "'A'(alias)":
+        ctx.oblige("post", "a-string-that-names-an-alias-is-that-alias(a forward reference resolves to the class the module defines)" + tag, result is d["u"].A)
+    else:
+        ctx.oblige("post", "a-hint-without-forward-references(at any depth)-and-a-string-that-names-nothing-are-returned-as-the-very-same-object(left as it was,nothing rebuilt)" + tag,
+                   result is d["h"] and not d["u"].made)
+    ctx.oblige("frame", "the-aliases-are-not-modified" + tag, set(d["aliases"]) == set(d["aliases0"]) and all(d["aliases"][k] is v for k, v in d["aliases0"].items()))
+
+
+def rfl_setup(ctx):
+    """The arm `if forward_arg in aliases:` of the nested function: variables as the statements before it leave them."""
+    classes(ctx)
+    u = U()
+    dotted = ["A", "mod.A", "mod.A.B"][ctx.choose(3, "forward-reference")]
+    head, _, rest = dotted.partition(".")
+    mod = Rec("module mod")
+    aliases = {"A": u.A, "mod": mod, "B": u.B}
+    chain = []
+
+    def getattr_recursive(c, a, k):
+        chain.append((a[0], a[1]))
+        return Rec("attribute chain result")
+
+    arg = u.ref(dotted)
+    return Setup(env={"forward_arg": head, "forward_args": [rest] if rest else [], "aliases": aliases, "arg": arg}, calls={"getattr_recursive": getattr_recursive},
+                 data=dict(u=u, dotted=dotted, head=head, rest=rest, aliases=aliases, chain=chain, mod=mod, aliases0=dict(aliases)))
+
+
+def rfl_post(ctx, st, result):
+    d = st.data
+    got = st.data["env"].lookup("arg")
+    if not d["rest"]:
+        ctx.oblige("post", f"a-forward-reference-'A'-is-the-object-the-namespace-binds-to-A[{d['dotted']}]", got is d["u"].A and not d["chain"])
+    else:
+        ctx.oblige("post", f"a-dotted-forward-reference-'mod.A.B'-is-the-attribute-chain-A.B-below-the-object-bound-to-mod[{d['dotted']}]",
+                   len(d["chain"]) == 1 and d["chain"][0][0] is d["mod"] and d["chain"][0][1] == d["rest"] and isinstance(got, Rec) and got.cls == "attribute chain result")
+    ctx.oblige("frame", f"the-aliases-are-not-modified[{d['dotted']}]", set(d["aliases"]) == set(d["aliases0"]) and all(d["aliases"][k] is v for k, v in d["aliases0"].items()))
+
+
+RB_ORIGINS = ["list", "List", "tuple", "Tuple", "set", "Set", "dict", "Dict", "type", "Type", "Union"]
+RB_KIND = {"list": "sequence", "List": "sequence", "tuple": "tuple", "Tuple": "tuple", "set": "set", "Set": "set", "dict": "mapping", "Dict": "mapping", "type": "type", "Type": "type", "Union": "union"}
+
+
+def rb_setup(ctx):
+    """The arm `if subtypes != list(typehint.__args__):` - the hint is rebuilt from the resolved arguments."""
+    classes(ctx)
+    u = U()
+    oname = RB_ORIGINS[ctx.choose(len(RB_ORIGINS), "origin")]
+    py = [(3, 9), (3, 12)][ctx.choose(2, "python-version")]
+    o = getattr(u, oname)
+    two = oname in ("dict", "Dict", "Union", "tuple", "Tuple")
+    old_args = (u.str, u.ref("A")) if two else (u.ref("A"),)
+    subtypes = [u.str, u.A] if two else [u.A]
+    h = u.g(o, *old_args)
+    return Setup(env={"typehint": h, "subtypes": subtypes}, calls=u.calls(), consts=dict(u.consts(), **{"sys.version_info": py}),
+                 data=dict(u=u, oname=oname, o=o, py=py, h=h, old_args=old_args, subtypes=list(subtypes)))
+
+
+def rb_post(ctx, st, result):
+    d = st.data
+    u = d["u"]
+    tag = f"[{d['oname']}[...];py{d['py'][0]}.{d['py'][1]}]"
+    new = st.data["env"].lookup("typehint")
+    ok = isinstance(new, Rec) and new.attrs.get("made") is True and len(u.made) == 1
+    ctx.oblige("post", "the-hint-is-rebuilt-once,by-subscripting,with-exactly-the-resolved-arguments-in-order" + tag, ok and tuple(new.attrs["__args__"]) == tuple(d["subtypes"]))
+    if not ok:
+        return
+    o2 = new.attrs["__origin__"]
+    name2 = [n for n in RB_ORIGINS if getattr(u, n) is o2]
+    ctx.oblige("post", "the-rebuilt-hint-is-the-same-kind-of-container(a list stays a list,a set a set,a mapping a mapping...):resolving-a-forward-reference-never-changes-the-declared-type" + tag,
+               len(name2) == 1 and RB_KIND[name2[0]] == RB_KIND[d["oname"]], note=f"rebuilt with {name2}")
+    if d["py"] >= (3, 10):
+        ctx.oblige("post", "on-Python>=3.10-the-origin-itself-is-subscripted" + tag, o2 is d["o"])
+    ctx.oblige("frame", "the-original-hint-object-is-not-modified" + tag, d["h"].attrs["__args__"] == d["old_args"] and d["h"].attrs["__origin__"] is d["o"])
+
+
+# ============================================================================================================ get_global_vars
+def ggv_setup(ctx):
+    classes(ctx)
+    src_kind = ["module-not-in-sys.modules", "getsource-fails(OSError)", "source-without-TYPE_CHECKING", "source-mentions-TYPE_CHECKING"][ctx.choose(4, "source")]
+    G = {"A": Rec("class A"), "Optional": Rec("typing Optional")}
+    module = Rec("module usermod", attrs={"__dict__": G})
+    obj = Rec("component", attrs={"__module__": "usermod"})
+    logger = [None, Rec("logger")][ctx.choose(2, "logger")]
+    source = z3.String("module_source")
+    if src_kind == "source-without-TYPE_CHECKING":
+        ctx.assume(z3.Not(z3.Contains(source, z3.StringVal("TYPE_CHECKING"))))
+    if src_kind == "source-mentions-TYPE_CHECKING":
+        ctx.assume(z3.Contains(source, z3.StringVal("TYPE_CHECKING")))
+    DEC = Rec("class decimal.Decimal")
+    ua = {}
+
+    def update_aliases(c, a, k):
+        c.event("update_aliases", a[0], a[1], a[2], a[3] if len(a) > 3 else k.get("logger"))
+        ua["dict"] = a[2]
+        outcome = c.choose(2, "update_aliases-raises")
+        if outcome == 1:
+            raise PyRaise(ExcVal("SyntaxError", ("invalid syntax",), origin="update_aliases"))
+        a[2]["Decimal"] = DEC  # contract of update_aliases: the names bound under TYPE_CHECKING are added to the dict it is given
+        ua["added"] = True
+
+    def getsource(c, a, k):
+        c.event("getsource", a[0])
+        if src_kind == "getsource-fails(OSError)":
+            raise PyRaise(ExcVal("OSError", ("source code not available",), origin="inspect.getsource"))
+        return source
+
+    calls = {"import_module": lambda c, a, k: (c.event("import_module", a[0]), module)[1], "TypeCheckingVisitor().update_aliases": update_aliases}
+    calls["inspect.getsource"] = getsource
+    sys_modules = {} if src_kind == "module-not-in-sys.modules" else {"usermod": module}
+    return Setup(env={"obj": obj, "logger": logger}, calls=calls, consts={"sys.modules": sys_modules},
+                 data=dict(src_kind=src_kind, G=G, G0=dict(G), module=module, obj=obj, logger=logger, DEC=DEC, ua=ua, source=source), watch={"module_source": source})
+
+
+def ggv_post(ctx, st, result):
+    d = st.data
+    tag = f"[{d['src_kind']};logger:{'yes' if d['logger'] is not None else 'None'}]"
+    G0 = d["G0"]
+    ok = isinstance(result, dict)
+    ctx.oblige("post", "the-result-binds-every-global-of-the-component's-module-to-the-module's-object" + tag, ok and all(k in result and result[k] is v for k, v in G0.items()))
+    if not ok:
+        return
+    ups = [e for e in ctx.events if e[0] == "update_aliases"]
+    if d["src_kind"] == "source-mentions-TYPE_CHECKING":
+        ctx.oblige("post", "when-the-module-source-mentions-TYPE_CHECKING-its-guarded-imports-are-evaluated-once,for-this-module's-source-and-name,into-the-namespace-that-is-returned" + tag,
+                   len(ups) == 1 and ups[0][1] is d["source"] and ups[0][2] == "usermod" and ups[0][3] is result and ups[0][4] is d["logger"])
+        if d["ua"].get("added"):
+            ctx.oblige("post", "a-name-imported-only-under-TYPE_CHECKING-resolves-to-the-imported-object" + tag, result.get("Decimal") is d["DEC"] and set(result) == set(G0) | {"Decimal"})
+        else:
+            ctx.oblige("post", "a-failing-TYPE_CHECKING-block-leaves-the-module's-own-globals-as-the-answer" + tag, set(result) >= set(G0))
+    else:
+        ctx.oblige("post", "without-source,or-without-a-mention-of-TYPE_CHECKING,the-result-is-exactly-the-module's-globals(nothing is parsed or executed)" + tag, not ups and set(result) == set(G0))
+    ctx.oblige("frame", "the-module's-own-namespace-is-not-modified:no-name-appears-in-the-user's-module" + tag, set(d["G"]) == set(G0) and all(d["G"][k] is v for k, v in G0.items()))
+
+
+def ggv_raises(ctx, st, exc):
+    ctx.oblige("raises", f"no-failure-of-the-source-lookup-or-of-the-TYPE_CHECKING-evaluation-escapes(got {exc.cls}@{exc.origin})[{st.data['src_kind']}]", False)
+
+
+# ============================================================================================================ TypeCheckingVisitor
+def ast_ctor(cls):
+    return lambda c, a, k: N(cls, **k)
+
+
+TC_CALLS = {"ast.dump": lambda c, a, k: dump(a[0]), "ast.Attribute": ast_ctor("Attribute"), "ast.Name": ast_ctor("Name"), "ast.Load": ast_ctor("Load")}
+TC_ATTR = lambda base: dump(N("Attribute", value=name(base), attr="TYPE_CHECKING", ctx=N("Load")))  # noqa: E731
+TC_NAME = lambda nm: dump(name(nm))  # noqa: E731
+IMPORTS = {"import typing": [("typing", None)], "import typing as t": [("typing", "t")], "import os": [("os", None)], "import os, typing as t": [("os", None), ("typing", "t")], "import typing.re": [("typing.re", None)],
+           "import typing as t, os as typing": [("typing", "t"), ("os", "typing")]}
+
+
+def vimp_setup(ctx):
+    classes(ctx)
+    stmt = list(IMPORTS)[ctx.choose(len(IMPORTS), "statement")]
+    node = N("Import", names=[N("alias", name=n, asname=a) for n, a in IMPORTS[stmt]])
+    earlier = "Name(earlier entry)"
+    names = [earlier]
+    self = Rec("TypeCheckingVisitor", attrs={"type_checking_names": names})
+    return Setup(env={"self": self, "node": node}, calls=TC_CALLS, consts=AST_CONSTS, data=dict(stmt=stmt, names=names, earlier=earlier, node=node, node_dump=dump(node)))
+
+
+def vimp_post(ctx, st, result):
+    d = st.data
+    want = {"import typing": [TC_ATTR("typing")], "import typing as t": [TC_ATTR("t")], "import os, typing as t": [TC_ATTR("t")], "import typing as t, os as typing": [TC_ATTR("t")]}.get(d["stmt"], [])
+    ctx.oblige("post", f"`import typing [as t]`-makes-exactly-`t.TYPE_CHECKING`(the name the module binds)-a-guard;any-other-import-makes-none;earlier-guards-are-kept[{d['stmt']}]",
+               d["names"] == [d["earlier"]] + want, note=f"got {d['names']}")
+    ctx.oblige("frame", f"the-statement-is-not-modified[{d['stmt']}]", dump(d["node"]) == d["node_dump"])
+
+
+FROMS = {"from typing import TYPE_CHECKING": ("typing", [("TYPE_CHECKING", None)]), "from typing import TYPE_CHECKING as TC": ("typing", [("TYPE_CHECKING", "TC")]),
+         "from typing import Optional, TYPE_CHECKING": ("typing", [("Optional", None), ("TYPE_CHECKING", None)]), "from typing import Optional": ("typing", [("Optional", None)]),
+         "from other import TYPE_CHECKING": ("other", [("TYPE_CHECKING", None)]), "from . import TYPE_CHECKING": (None, [("TYPE_CHECKING", None)]), "from typing import Optional as TYPE_CHECKING": ("typing", [("Optional", "TYPE_CHECKING")])}
+
+
+def vfrom_setup(ctx):
+    classes(ctx)
+    stmt = list(FROMS)[ctx.choose(len(FROMS), "statement")]
+    module, als = FROMS[stmt]
+    node = N("ImportFrom", module=module, names=[N("alias", name=n, asname=a) for n, a in als], level=0)
+    earlier = "Name(earlier entry)"
+    names = [earlier]
+    self = Rec("TypeCheckingVisitor", attrs={"type_checking_names": names})
+    return Setup(env={"self": self, "node": node}, calls=TC_CALLS, consts=AST_CONSTS, data=dict(stmt=stmt, names=names, earlier=earlier, node=node, node_dump=dump(node)))
+
+
+def vfrom_post(ctx, st, result):
+    d = st.data
+    want = {"from typing import TYPE_CHECKING": [TC_NAME("TYPE_CHECKING")], "from typing import TYPE_CHECKING as TC": [TC_NAME("TC")], "from typing import Optional, TYPE_CHECKING": [TC_NAME("TYPE_CHECKING")]}.get(d["stmt"], [])
+    ctx.oblige("post", f"`from typing import TYPE_CHECKING [as TC]`-makes-exactly-the-bound-name-a-guard;another-module,another-name-make-none;earlier-guards-are-kept[{d['stmt']}]",
+               d["names"] == [d["earlier"]] + want, note=f"got {d['names']}")
+    ctx.oblige("frame", f"the-statement-is-not-modified[{d['stmt']}]", dump(d["node"]) == d["node_dump"])
+
+
+IF_TESTS = ["TYPE_CHECKING(guard)", "t.TYPE_CHECKING(guard)", "OTHER_FLAG", "os.TYPE_CHECKING", "not TYPE_CHECKING", "TYPE_CHECKING == True", "TYPE_CHECKING(no guard registered)"]
+
+
+def vif_setup(ctx):
+    classes(ctx)
+    tk = IF_TESTS[ctx.choose(len(IF_TESTS), "test")]
+    has_else = ctx.choose(2, "has-else") == 1
+    logger = [None, Rec("logger")][ctx.choose(2, "logger")]
+    tc = lambda: name("TYPE_CHECKING")  # noqa: E731
+    test = {"TYPE_CHECKING(guard)": tc, "t.TYPE_CHECKING(guard)": lambda: N("Attribute", value=name("t"), attr="TYPE_CHECKING", ctx=N("Load")), "OTHER_FLAG": lambda: name("OTHER_FLAG"),
+            "os.TYPE_CHECKING": lambda: N("Attribute", value=name("os"), attr="TYPE_CHECKING", ctx=N("Load")), "not TYPE_CHECKING": lambda: N("UnaryOp", op=N("Not"), operand=tc()),
+            "TYPE_CHECKING == True": lambda: N("Compare", left=tc(), ops=[N("Eq")], comparators=[const(True)]), "TYPE_CHECKING(no guard registered)": tc}[tk]()
+    body = [N("ImportFrom", module="decimal", names=[N("alias", name="Decimal", asname=None)], level=0)]
+    orelse = [N("Assign", targets=[N("Name", id="Decimal", ctx=N("Store"))], value=name("float"))] if has_else else []
+    node = N("If", test=test, body=body, orelse=orelse)
+    guards = [] if tk == "TYPE_CHECKING(no guard registered)" else [TC_NAME("TYPE_CHECKING"), TC_ATTR("t")]
+    aliases = {"A": Rec("class A")}
+    self = Rec("TypeCheckingVisitor", attrs={"type_checking_names": guards, "aliases": aliases, "logger": logger, "module": "usermod"})
+    self.methods["generic_visit"] = lambda c, s_, a, k: c.event("generic_visit", a[0])
+    runs = []
+
+    def exec_model(c, a, k):
+        runs.append((a[0], a[1], a[2], list(a[0].attrs["body"]) if isinstance(a[0], Rec) else None))
+        if c.choose(2, "the-block-fails") == 1:
+            raise PyRaise(ExcVal("ModuleNotFoundError", ("No module named 'decimal'",), origin="exec"))
+
+    calls = dict(TC_CALLS, exec=exec_model, compile=lambda c, a, k: a[0])
+    calls["ast.parse"] = lambda c, a, k: N("Module", body=[], type_ignores=[])
+    return Setup(env={"self": self, "node": node}, calls=calls, consts=AST_CONSTS,
+                 data=dict(tk=tk, has_else=has_else, node=node, body=body, orelse=orelse, aliases=aliases, self_=self, runs=runs, node_dump=dump(node), guards=guards, guards0=list(guards), logger=logger))
+
+
+def vif_post(ctx, st, result):
+    d = st.data
+    tag = f"[if {d['tk']};{'else' if d['has_else'] else 'no else'};logger:{'yes' if d['logger'] is not None else 'None'}]"
+    runs = d["runs"]
+    if d["tk"] in ("TYPE_CHECKING(guard)", "t.TYPE_CHECKING(guard)"):
+        ok = len(runs) == 1
+        ctx.oblige("post", "the-body-of-an-`if <guard>:`-is-executed-exactly-once" + tag, ok)
+        if ok:
+            tree, g, l, stmts = runs[0]
+            ctx.oblige("post", "what-runs-is-exactly-the-guarded-body(never the else arm),as-a-module,with-the-aliases-as-globals-and-locals(the imported names land there)" + tag,
+                       isinstance(tree, Rec) and tree.cls == "Module" and stmts is not None and len(stmts) == len(d["body"]) and all(x is y for x, y in zip(stmts, d["body"])) and g is d["aliases"] and l is d["aliases"])
+    else:
+        ctx.oblige("post", "a-test-that-is-not-a-guard-of-this-module(another name,`not TYPE_CHECKING`,a comparison,no guard imported)-executes-nothing" + tag, not runs)
+    ctx.oblige("frame", "the-if-statement,the-guards-and-the-visitor's-aliases-object-are-not-modified" + tag,
+               dump(d["node"]) == d["node_dump"] and d["node"].attrs["body"] is d["body"] and d["guards"] == d["guards0"] and d["self_"].attrs["aliases"] is d["aliases"])
+
+
+def vif_raises(ctx, st, exc):
+    ctx.oblige("raises", f"a-failing-TYPE_CHECKING-block(optional dependency missing)-is-swallowed(got {exc.cls}@{exc.origin})[if {st.data['tk']}]", False)
+
+
+GV_NODES = ["Module", "If", "FunctionDef", "ClassDef", "Expr"]
+
+
+def gv_setup(ctx):
+    classes(ctx)
+    nk = GV_NODES[ctx.choose(len(GV_NODES), "node")]
+    node = N(nk, body=[])
+    sup = Rec("super()", methods={"generic_visit": lambda c, s_, a, k: c.event("descend", a[0])})
+    self = Rec("TypeCheckingVisitor")
+    return Setup(env={"self": self, "node": node}, calls={"super": lambda c, a, k: sup}, consts=AST_CONSTS, data=dict(nk=nk, node=node))
+
+
+def gv_post(ctx, st, result):
+    d = st.data
+    ev = [e for e in ctx.events if e[0] == "descend"]
+    if d["nk"] in ("Module", "If"):
+        ctx.oblige("post", f"the-search-descends-through-the-module-and-through-if-statements(module-level code)[{d['nk']}]", len(ev) == 1 and ev[0][1] is d["node"])
+    else:
+        ctx.oblige("post", f"function-and-class-bodies-are-not-searched(an import there binds no module-level name)[{d['nk']}]", not ev)
+
+
+def ua_setup(ctx):
+    classes(ctx)
+    bad = ctx.choose(2, "source-does-not-parse") == 1
+    leftover = ctx.choose(2, "a-guard-was-registered-while-another-module-was-searched") == 1
+    tree = N("Module", body=[])
+    src, modname = z3.String("module_source"), z3.String("module")
+    aliases, logger = {"A": Rec("class A")}, Rec("logger")
+    # type_checking_names is a class attribute: every visitor reads and appends to the one list (the record's attribute stands for it)
+    guards = [dump(name("FLAG"))] if leftover else []
+    self = Rec("TypeCheckingVisitor", attrs={"type_checking_names": guards},
+               methods={"visit": lambda c, s_, a, k: c.event("visit", a[0], s_.attrs.get("aliases"), s_.attrs.get("module"), s_.attrs.get("logger"), list(s_.attrs.get("type_checking_names"))),
+                        "generic_visit": lambda c, s_, a, k: c.event("generic_visit", a[0])})
+
+    def parse(c, a, k):
+        c.event("parse", a[0])
+        if bad:
+            raise PyRaise(ExcVal("SyntaxError", ("invalid syntax",), origin="ast.parse"))
+        return tree
+
+    return Setup(env={"self": self, "module_source": src, "module": modname, "aliases": aliases, "logger": logger}, calls={"ast.parse": parse}, consts=AST_CONSTS,
+                 data=dict(bad=bad, leftover=leftover, tree=tree, src=src, modname=modname, aliases=aliases, logger=logger, self_=self))
+
+
+def ua_post(ctx, st, result):
+    d = st.data
+    ev = list(ctx.events)
+    ctx.oblige("post", "the-source-given-is-parsed-and-its-tree-visited-once,with-the-caller's-dict-itself-as-the-aliases(the names land in it),the-module-name-and-the-logger-in-place",
+               not d["bad"] and len(ev) == 2 and ev[0] == ("parse", d["src"]) and ev[1][0] == "visit" and ev[1][1] is d["tree"] and ev[1][2] is d["aliases"] and ev[1][3] is d["modname"] and ev[1][4] is d["logger"])
+    if len(ev) == 2 and ev[1][0] == "visit":
+        ctx.oblige("post", f"the-search-of-a-module-starts-without-guards:only-what-this-module's-own-imports-make-a-guard-counts(a TYPE_CHECKING alias of another module is not carried over)[{'guard left from another module' if d['leftover'] else 'first search'}]",
+                   ev[1][5] == [])
+
+
+def ua_raises(ctx, st, exc):
+    ctx.oblige("raises", f"only-a-source-that-does-not-parse-is-refused,with-SyntaxError(got {exc.cls}@{exc.origin})", st.data["bad"] and exc.cls == "SyntaxError" and not [e for e in ctx.events if e[0] == "visit"])
+
+
+# ============================================================================================================ get_return_type
+RT_FORMS = ["class int(evaluated)", "empty", "'A'(postponed)", "Optional['A'](postponed inside)"]
+
+
+def rt_setup(ctx):
+    classes(ctx)
+    u = U()
+    form = RT_FORMS[ctx.choose(len(RT_FORMS), "return-annotation")]
+    ann = {"class int(evaluated)": lambda: u.int, "empty": lambda: u.Empty, "'A'(postponed)": lambda: "A", "Optional['A'](postponed inside)": lambda: u.g(u.Union, u.ref("A"), u.NoneType)}[form]()
+    postponed = u.unresolved(ann)
+    outcome = ["resolved", "raises", "no-return-entry", "a-bare-ForwardRef"][ctx.choose(4, "get_type_hints")] if postponed else "not-consulted"
+    G = {"A": u.A}
+    module = Rec("module usermod", attrs={"__dict__": G})
+    component = Rec("component", attrs={"__module__": "usermod"})
+    logger = [None, Rec("logger")][ctx.choose(2, "logger")]
+    hinted, fref, resolved = Rec("return type from get_type_hints"), u.ref("A"), Rec("forward reference resolved")
+
+    def get_type_hints(c, a, k):
+        c.event("get_type_hints", a[0], a[1] if len(a) > 1 else None)
+        if outcome == "raises":
+            raise PyRaise(ExcVal("NameError", ("name 'A' is not defined",), origin="get_type_hints"))
+        if outcome == "no-return-entry":
+            return {"x": u.int}
+        return {"x": u.int, "return": fref if outcome == "a-bare-ForwardRef" else hinted}
+
+    calls = dict(u.calls(), get_type_hints=get_type_hints, import_module=lambda c, a, k: (c.event("import_module", a[0]), module)[1],
+                 resolve_forward_refs=lambda c, a, k: (c.event("resolve_forward_refs", a[0], a[1]), resolved)[1])
+    calls["inspect.signature"] = lambda c, a, k: (c.event("signature", a[0]), Rec("Signature", attrs={"return_annotation": ann}))[1]
+    env = {"component": component}
+    if logger is not None:
+        env["logger"] = logger
+    return Setup(env=env, calls=calls, consts=u.consts(), inline=INL_EVAL,
+                 data=dict(u=u, form=form, ann=ann, postponed=postponed, outcome=outcome, G=G, G0=dict(G), component=component, hinted=hinted, resolved=resolved))
+
+
+def rt_post(ctx, st, result):
+    d = st.data
+    tag = f"[{d['form']};get_type_hints:{d['outcome']}]"
+    gh = [e for e in ctx.events if e[0] == "get_type_hints"]
+    if not d["postponed"]:
+        ctx.oblige("post", "an-already-evaluated-return-annotation(or none)-is-returned-as-the-object-it-is;nothing-is-looked-up" + tag, result is d["ann"] and not gh)
+    else:
+        ctx.oblige("post", "a-postponed-return-annotation-is-looked-up-once,of-the-component,in-its-own-module's-namespace" + tag, len(gh) == 1 and gh[0][1] is d["component"] and gh[0][2] is d["G"])
+        if d["outcome"] == "resolved":
+            ctx.oblige("post", "the-return-type-is-what-the-annotation-denotes-there" + tag, result is d["hinted"])
+        elif d["outcome"] == "a-bare-ForwardRef":
+            rs = [e for e in ctx.events if e[0] == "resolve_forward_refs"]
+            ctx.oblige("post", "a-bare-forward-reference-is-resolved-by-its-name-in-the-module-namespace" + tag, result is d["resolved"] and len(rs) == 1 and rs[0][1] == "A" and rs[0][2] is d["G"])
+        else:
+            ctx.oblige("post", "a-return-annotation-that-cannot-be-evaluated-gives-None(no type),never-the-unevaluated-string" + tag, result is None)
+    ctx.oblige("frame", "the-module-namespace-is-not-modified" + tag, set(d["G"]) == set(d["G0"]) and all(d["G"][k] is v for k, v in d["G0"].items()))
+
+
+def rt_raises(ctx, st, exc):
+    ctx.oblige("raises", f"never-raises-for-a-component-with-a-signature(got {exc.cls}@{exc.origin})[{st.data['form']};{st.data['outcome']}]", False)
+
+
+# ============================================================================================================ BackportTypeHints / NamesVisitor
+BP_CALLS = {"ast.Name": ast_ctor("Name"), "ast.Load": ast_ctor("Load"), "ast.Subscript": ast_ctor("Subscript"), "ast.Tuple": ast_ctor("Tuple"), "ast.Index": ast_ctor("Index"), "ast.Store": ast_ctor("Store")}
+BP_CLASS = Rec("class BackportTypeHints", attrs={"__name__": "BackportTypeHints"})
+
+
+def var_map(nm, value):
+    return Rec("var_map", attrs={"name": nm, "value": value})
+
+
+def bp_self(exec_vars):
+    return Rec("BackportTypeHints", attrs={"__class__": BP_CLASS, "exec_vars": exec_vars})
+
+
+def slice_value(sl):
+    """The subscript's index expression: ast.Index(value) on Python 3.8, the expression itself from 3.9 on."""
+    return sl.attrs["value"] if isinstance(sl, Rec) and sl.cls == "Index" else sl
+
+
+def nnl_setup(ctx):
+    classes(ctx)
+    vname = z3.String("var.name")
+    value, user = Rec("typing object"), Rec("user object")
+    exec_vars = {"List": user}
+    return Setup(env={"self": bp_self(exec_vars), "var": var_map(vname, value)}, calls=BP_CALLS, data=dict(vname=vname, value=value, user=user, exec_vars=exec_vars), watch={"var.name": vname})
+
+
+def nnl_post(ctx, st, result):
+    d = st.data
+    ok = isinstance(result, Rec) and result.cls == "Name" and isinstance(result.attrs.get("ctx"), Rec) and result.attrs["ctx"].cls == "Load"
+    ctx.oblige("post", "returns-a-Name-in-Load-context", ok)
+    if not ok:
+        return
+    ident = result.attrs["id"]
+    new_keys = [k for k in d["exec_vars"] if k != "List"]
+    ctx.oblige("post", "the-name-is-bound-to-the-typing-object-in-the-namespace-the-tree-will-run-in;nothing-the-user-bound-is-touched",
+               len(new_keys) == 1 and d["exec_vars"][new_keys[0]] is d["value"] and d["exec_vars"]["List"] is d["user"] and getattr(new_keys[0], "term", None) is not None and new_keys[0].term.eq(ident) if z3.is_expr(ident) else False)
+    if z3.is_expr(ident):
+        ctx.oblige("post", "the-name-cannot-collide-with-a-name-of-the-annotation(reserved prefix _BackportTypeHints_)-and-is-determined-by-the-typing-object's-name",
+                   ident == z3.Concat(z3.StringVal("_BackportTypeHints_"), d["vname"]))
+
+
+def vconst_setup(ctx):
+    classes(ctx)
+    vk = ["None", "'A'(string)", "3", "Ellipsis"][ctx.choose(4, "constant")]
+    node = const({"None": None, "'A'(string)": "A", "3": 3, "Ellipsis": Rec("Ellipsis")}[vk])
+    none_map = var_map("NoneType", Rec("class NoneType"))
+    made = Rec("Name made by new_name_load")
+    self = bp_self({})
+    self.methods["new_name_load"] = lambda c, s_, a, k: (c.event("new_name_load", a[0]), made)[1]
+    return Setup(env={"self": self, "node": node}, consts={"none_map": none_map, "union_map": var_map("Union", Rec("typing Union"))}, data=dict(vk=vk, node=node, none_map=none_map, made=made, node_dump=dump(node)))
+
+
+def vconst_post(ctx, st, result):
+    d = st.data
+    ev = [e for e in ctx.events if e[0] == "new_name_load"]
+    if d["vk"] == "None":
+        ctx.oblige("post", "None-in-an-annotation-becomes-the-name-of-NoneType(`int | None` -> Union[int, NoneType])[None]", result is d["made"] and len(ev) == 1 and ev[0][1] is d["none_map"])
+    else:
+        ctx.oblige("post", f"any-other-constant(a quoted name,a number,...)-stays-the-node-it-is[{d['vk']}]", result is d["node"] and not ev and dump(d["node"]) == d["node_dump"])
+
+
+def flatten_model(ctx, node, elts):
+    """Contract of append_union_elts (its own unit): the operands of a chain of `|`, left to right, each back-ported."""
+    if isinstance(node, Rec) and node.cls == "BinOp" and node.attrs["op"].cls == "BitOr":
+        flatten_model(ctx, node.attrs["left"], elts)
+        flatten_model(ctx, node.attrs["right"], elts)
+    else:
+        elts.append(("back-ported", node))
+
+
+BINOPS = ["A | B", "A | B | None", "A | (B | C)", "A + B"]
+
+
+def vbin_setup(ctx):
+    classes(ctx)
+    bk = BINOPS[ctx.choose(len(BINOPS), "expression")]
+    A, B, C, NONE = name("A"), name("B"), name("C"), const(None)
+    node = {"A | B": lambda: bitor(A, B), "A | B | None": lambda: bitor(bitor(A, B), NONE), "A | (B | C)": lambda: bitor(A, bitor(B, C)), "A + B": lambda: N("BinOp", left=A, op=N("Add"), right=B)}[bk]()
+    leaves = {"A | B": [A, B], "A | B | None": [A, B, NONE], "A | (B | C)": [A, B, C], "A + B": []}[bk]
+    union_map = var_map("Union", Rec("typing Union"))
+    made = Rec("Name made by new_name_load")
+    self = bp_self({})
+    self.methods["new_name_load"] = lambda c, s_, a, k: (c.event("new_name_load", a[0]), made)[1]
+    self.methods["append_union_elts"] = lambda c, s_, a, k: flatten_model(c, a[0], a[1])
+    return Setup(env={"self": self, "node": node}, calls=BP_CALLS, consts=dict(AST_CONSTS, union_map=union_map, none_map=var_map("NoneType", Rec("class NoneType"))), data=dict(bk=bk, node=node, leaves=leaves, union_map=union_map, made=made, node_dump=dump(node)))
+
+
+def vbin_post(ctx, st, result):
+    d = st.data
+    tag = f"[{d['bk']}]"
+    if d["bk"] == "A + B":
+        ctx.oblige("post", "an-operator-other-than-`|`-is-left-as-it-is" + tag, result is d["node"])
+    else:
+        ok = isinstance(result, Rec) and result.cls == "Subscript" and result.attrs.get("value") is d["made"] and isinstance(slice_value(result.attrs.get("slice")), Rec) and slice_value(result.attrs["slice"]).cls == "Tuple"
+        ctx.oblige("post", "`X | Y | ...`-becomes-a-subscript-of-the-name-bound-to-typing.Union-with-a-tuple-of-members" + tag, ok and [e[1] for e in ctx.events if e[0] == "new_name_load"] == [d["union_map"]])
+        if ok:
+            elts = slice_value(result.attrs["slice"]).attrs["elts"]
+            ctx.oblige("post", "the-members-are-exactly-the-operands-of-the-whole-chain,flat,left-to-right,each-back-ported(`A | B | None` is Union[A, B, NoneType],never a nested or reordered union)" + tag,
+                       len(elts) == len(d["leaves"]) and all(isinstance(e, tuple) and e[0] == "back-ported" and e[1] is l for e, l in zip(elts, d["leaves"])))
+    ctx.oblige("frame", "the-node-given-is-not-modified" + tag, dump(d["node"]) == d["node_dump"])
+
+
+def aue_setup(ctx):
+    classes(ctx)
+    nk = ["leaf", "X | Y", "X + Y"][ctx.choose(3, "node")]
+    X, Y = name("X"), name("Y")
+    node = {"leaf": lambda: X, "X | Y": lambda: bitor(X, Y), "X + Y": lambda: N("BinOp", left=X, op=N("Add"), right=Y)}[nk]()
+    earlier = ("back-ported", name("earlier"))
+    elts = [earlier]
+    self = bp_self({})
+    self.methods["visit"] = lambda c, s_, a, k: ("back-ported", a[0])
+    self.methods["append_union_elts"] = lambda c, s_, a, k: flatten_model(c, a[0], a[1])
+    return Setup(env={"self": self, "node": node, "elts": elts}, consts=AST_CONSTS, data=dict(nk=nk, node=node, X=X, Y=Y, elts=elts, earlier=earlier))
+
+
+def aue_post(ctx, st, result):
+    d = st.data
+    got = d["elts"][1:]
+    want = [d["X"], d["Y"]] if d["nk"] == "X | Y" else [d["node"]]
+    ctx.oblige("post", f"the-operands-of-a-`|`-are-appended-left-then-right;anything-else(a name,another operator)-is-one-member,back-ported;what-was-collected-before-stays-first[{d['nk']}]",
+               d["elts"][0] is d["earlier"] and len(got) == len(want) and all(isinstance(g, tuple) and g[0] == "back-ported" and g[1] is w for g, w in zip(got, want)))
+
+
+SUBS = ["list[X]", "dict[X]", "Optional[X]", "typing.List[X]", "MyGeneric[X]", "f()[X]"]
+
+
+def vsub_setup(ctx):
+    classes(ctx)
+    sk = SUBS[ctx.choose(len(SUBS), "subscript")]
+    sl = name("X")
+    value = {"list[X]": lambda: name("list"), "dict[X]": lambda: name("dict"), "Optional[X]": lambda: name("Optional"), "typing.List[X]": lambda: N("Attribute", value=name("typing"), attr="List", ctx=N("Load")),
+             "MyGeneric[X]": lambda: name("MyGeneric"), "f()[X]": lambda: N("Call", func=name("f"), args=[], keywords=[])}[sk]()
+    node = N("Subscript", value=value, slice=sl, ctx=N("Load"))
+    pep585 = {k: var_map(k.capitalize() if k != "frozenset" else "FrozenSet", Rec("typing " + k)) for k in ("dict", "frozenset", "list", "set", "tuple", "type")}
+    made = Rec("Name made by new_name_load")
+    self = bp_self({})
+    self.methods["new_name_load"] = lambda c, s_, a, k: (c.event("new_name_load", a[0]), made)[1]
+    self.methods["visit"] = lambda c, s_, a, k: ("back-ported", a[0])
+    return Setup(env={"self": self, "node": node}, calls=BP_CALLS, consts=dict(AST_CONSTS, pep585_map=pep585), data=dict(sk=sk, node=node, value=value, sl=sl, pep585=pep585, made=made, node_dump=dump(node)))
+
+
+def vsub_post(ctx, st, result):
+    d = st.data
+    tag = f"[{d['sk']}]"
+    ok = isinstance(result, Rec) and result.cls == "Subscript" and result is not d["node"]
+    ctx.oblige("post", "a-new-subscript-whose-index-is-the-back-ported-index(`list[int | None]`: the union inside is rewritten too)" + tag,
+               ok and result.attrs.get("slice") == ("back-ported", d["sl"]) and result.attrs["slice"][1] is d["sl"])
+    if ok:
+        ev = [e[1] for e in ctx.events if e[0] == "new_name_load"]
+        if d["sk"] in ("list[X]", "dict[X]"):
+            ctx.oblige("post", "a-builtin-generic(list, dict, set, tuple, type, frozenset)-is-replaced-by-the-name-bound-to-its-typing-counterpart(list -> List,dict -> Dict)" + tag,
+                       result.attrs.get("value") is d["made"] and len(ev) == 1 and ev[0] is d["pep585"][d["sk"].split("[")[0]])
+        else:
+            ctx.oblige("post", "any-other-subscripted-object(a typing generic,a user generic,an attribute,an expression)-is-kept-as-it-is" + tag, result.attrs.get("value") is d["value"] and not ev)
+    ctx.oblige("frame", "the-node-given-is-not-modified" + tag, dump(d["node"]) == d["node_dump"])
+
+
+def bpk_setup(ctx):
+    classes(ctx)
+    tree = N("Module", body=[N("Assign", targets=[N("Name", id="___arg_type___", ctx=N("Store"))], value=bitor(name("Sequence"), const(None)))])
+    abc_seq, abc_odd, user = Rec("collections.abc Sequence", attrs={"__module__": "collections.abc"}), Rec("collections.abc Buffer", attrs={"__module__": "collections.abc"}), Rec("class A", attrs={"__module__": "usermod"})
+    nomod = Rec("object without __module__")
+    t_seq = Rec("typing Sequence")
+    typing_mod = Rec("module typing", attrs={"Sequence": t_seq, "A": Rec("typing A (unrelated)")})
+    exec_vars = {"Sequence": abc_seq, "Buffer": abc_odd, "A": user, "x": nomod}
+    seen = {}
+
+    def visit(c, s_, a, k):
+        seen["visited"] = a[0]
+        seen["exec_vars_at_visit"] = s_.attrs.get("exec_vars")
+        c.event("visit", a[0])
+        return Rec("Module", attrs={"body": [], "transformed": True})
+
+    def fix(c, a, k):
+        c.event("fix_missing_locations", a[0])
+        seen["fixed"] = a[0]
+        return a[0]
+
+    self = Rec("BackportTypeHints", attrs={"__class__": BP_CLASS}, methods={"visit": visit})
+    calls = {"__import__": lambda c, a, k: typing_mod, "deepcopy": lambda c, a, k: copy_node(a[0])}
+    calls["ast.fix_missing_locations"] = fix
+    return Setup(env={"self": self, "input_ast": tree, "exec_vars": exec_vars}, calls=calls,
+                 data=dict(tree=tree, tree_dump=dump(tree), exec_vars=exec_vars, abc_seq=abc_seq, abc_odd=abc_odd, user=user, nomod=nomod, t_seq=t_seq, seen=seen))
+
+
+def bpk_post(ctx, st, result):
+    d = st.data
+    seen, ev = d["seen"], d["exec_vars"]
+    ctx.oblige("frame", "the-tree-given-is-not-modified:a-copy-is-transformed", dump(d["tree"]) == d["tree_dump"] and seen.get("visited") is not d["tree"] and seen.get("visited") is not None and dump(seen["visited"]) == d["tree_dump"])
+    ctx.oblige("post", "the-result-is-the-transformed-copy,with-locations-completed(compile needs them)", result is seen.get("fixed") and isinstance(result, Rec) and result.attrs.get("transformed") is True)
+    ctx.oblige("post", "the-names-the-transformation-introduces-are-bound-in-the-namespace-given(the one the tree will run in)", seen.get("exec_vars_at_visit") is ev)
+    ctx.oblige("post", "a-collections.abc-class-of-the-namespace(not subscriptable before 3.9)-is-replaced-by-typing's-generic-of-the-same-name-when-there-is-one;every-other-name-keeps-its-object",
+               set(ev) == {"Sequence", "Buffer", "A", "x"} and ev["Sequence"] is d["t_seq"] and ev["Buffer"] is d["abc_odd"] and ev["A"] is d["user"] and ev["x"] is d["nomod"])
+
+
+def nvf_setup(ctx):
+    classes(ctx)
+    ek = ["Dict[str, A]", "A", "Optional[A] | A", "3"][ctx.choose(4, "expression")]
+    node = {"Dict[str, A]": lambda: subscript(name("Dict"), N("Tuple", elts=[name("str"), name("A")], ctx=N("Load"))), "A": lambda: name("A"),
+            "Optional[A] | A": lambda: bitor(subscript(name("Optional"), name("A")), name("A")), "3": lambda: const(3)}[ek]()
+    want = {"Dict[str, A]": ["Dict", "str", "A"], "A": ["A"], "Optional[A] | A": ["Optional", "A"], "3": []}[ek]
+
+    def all_names(n, out):
+        if isinstance(n, Rec):
+            if n.cls == "Name":
+                out.append(n.attrs["id"])
+            for k_ in ("value", "slice", "left", "right", "elts"):
+                if k_ in n.attrs:
+                    all_names(n.attrs[k_], out)
+        elif isinstance(n, list):
+            for x in n:
+                all_names(x, out)
+        return out
+
+    def visit(c, s_, a, k):
+        c.event("visit", a[0], list(s_.attrs.get("names_found", ["<unset>"])))
+        for nm in all_names(a[0], []):
+            s_.attrs["names_found"].append(nm)  # what visit_Name does for every Name below the node
+
+    def unique(c, a, k):
+        out = []
+        for x in a[0]:
+            if x not in out:
+                out.append(x)
+        return out
+
+    self = Rec("NamesVisitor", attrs={"names_found": ["stale"]}, methods={"visit": visit})
+    return Setup(env={"self": self, "node": node}, calls={"unique": unique}, data=dict(ek=ek, node=node, want=want, self_=self, node_dump=dump(node)))
+
+
+def nvf_post(ctx, st, result):
+    d = st.data
+    ev = [e for e in ctx.events if e[0] == "visit"]
+    ctx.oblige("post", f"the-distinct-names-of-the-expression,in-order-of-first-occurrence;findings-of-an-earlier-search-are-not-carried-over[{d['ek']}]",
+               result == d["want"] and len(ev) == 1 and ev[0][1] is d["node"] and ev[0][2] == [], note=f"got {result!r}")
+    ctx.oblige("frame", f"the-expression-is-not-modified[{d['ek']}]", dump(d["node"]) == d["node_dump"])
+
+
 # ============================================================================================================ units
 def units(prop):
     T_EVAL = "type_requires_eval / has_subtypes: interpreted with their real bodies (inlined)"
@@ -493,8 +1269,39 @@ def units(prop):
         Unit(prop, MOD + "get_types", gt_setup, gt_post, gt_raises, expect_cover=("return", "raise:NameError"),
              trusted=[ORIGIN_TRUST, T_EVAL, AST_TRUST, "typing.get_type_hints(obj, globalns): name -> evaluated annotation, or the exception of the first annotation that fails",
                       "inspect.getsource / textwrap.dedent / ast.parse: the definition's tree, OSError/TypeError without source", "get_global_vars, get_arg_type, resolve_forward_refs by contract (their own units)"]),
+        Unit(prop, MOD + "get_arg_type", ga_setup, ga_post, ga_raises, expect_cover=("return", "raise:KeyError", "raise:NameError"),
+             trusted=[AST_TRUST, "exec(compile(tree)): runs the module's assignments in order in the namespace given; a name that is not bound there is NameError(\"name 'X' is not defined\")",
+                      "NamesVisitor.find (its own unit), BackportTypeHints.backport (its own units): an equivalent tree evaluable on this Python", "typing_extensions_import as documented"]),
+        Unit(prop, MOD + "resolve_forward_refs", rf_setup, rf_post, never, label="no-forward-reference-paths", trusted=[ORIGIN_TRUST, "has_subtypes: interpreted with its real body (inlined)"]),
+        Unit(prop, MOD + "resolve_forward_refs.<locals>.resolve_subtypes_forward_refs@if(forward_arg in aliases)", rfl_setup, rfl_post, never,
+             trusted=["getattr_recursive(obj, 'a.b'): obj.a.b (not under contract: starred unpacking)", "precondition: forward_arg, *forward_args = arg.__forward_arg__.split('.', 1)"]),
+        Unit(prop, MOD + "resolve_forward_refs.<locals>.resolve_subtypes_forward_refs@if(subtypes != list(typehint.__args__))", rb_setup, rb_post, never,
+             trusted=[ORIGIN_TRUST, "origin[args] builds the parametrised hint of that origin with those arguments"]),
+        Unit(prop, MOD + "get_global_vars", ggv_setup, ggv_post, ggv_raises,
+             trusted=["importlib.import_module / vars(module): the module's namespace dict; inspect.getsource: the module's source or OSError/TypeError", "TypeCheckingVisitor.update_aliases by contract (its own unit): adds the TYPE_CHECKING-only names to the dict given"]),
+        Unit(prop, MOD + "TypeCheckingVisitor.visit_Import", vimp_setup, vimp_post, never, trusted=[AST_TRUST]),
+        Unit(prop, MOD + "TypeCheckingVisitor.visit_ImportFrom", vfrom_setup, vfrom_post, never, trusted=[AST_TRUST]),
+        Unit(prop, MOD + "TypeCheckingVisitor.visit_If", vif_setup, vif_post, vif_raises,
+             trusted=[AST_TRUST, "exec(compile(module)): runs the statements with the globals / locals given, any exception of theirs propagates", "scenario: the and/or-test arm is left out (nested generators are outside the engine's subset)"]),
+        Unit(prop, MOD + "TypeCheckingVisitor.generic_visit", gv_setup, gv_post, never, trusted=["ast.NodeVisitor.generic_visit visits the children"]),
+        Unit(prop, MOD + "TypeCheckingVisitor.update_aliases", ua_setup, ua_post, ua_raises, expect_cover=("return", "raise:SyntaxError"), trusted=["ast.parse: the module's tree or SyntaxError; NodeVisitor.visit dispatches to the visit_* methods (their own units)"]),
+        Unit(prop, MOD + "get_return_type", rt_setup, rt_post, rt_raises,
+             trusted=[ORIGIN_TRUST, T_EVAL, "inspect.signature(component).return_annotation; typing.get_type_hints; importlib.import_module / vars", "resolve_forward_refs by contract (its own unit)"]),
+        Unit(prop, MOD + "BackportTypeHints.new_name_load", nnl_setup, nnl_post, never, trusted=[AST_TRUST]),
+        Unit(prop, MOD + "BackportTypeHints.visit_Constant", vconst_setup, vconst_post, never, trusted=["new_name_load by contract (its own unit)"]),
+        Unit(prop, MOD + "BackportTypeHints.visit_BinOp", vbin_setup, vbin_post, never, trusted=[AST_TRUST, "append_union_elts, new_name_load by contract (their own units)", "ast.Index(value): the index node (3.8) / the value itself (>= 3.9)"]),
+        Unit(prop, MOD + "BackportTypeHints.append_union_elts", aue_setup, aue_post, never, trusted=["the recursive calls by the contract being proved (induction over the expression); NodeTransformer.visit returns the back-ported node"]),
+        Unit(prop, MOD + "BackportTypeHints.visit_Subscript", vsub_setup, vsub_post, never, trusted=[AST_TRUST, "new_name_load by contract; NodeTransformer.visit returns the back-ported node"]),
+        Unit(prop, MOD + "BackportTypeHints.backport", bpk_setup, bpk_post, never, trusted=[AST_TRUST, "NodeTransformer.visit dispatches to the visit_* methods (their own units); ast.fix_missing_locations returns the tree it completes; __import__('typing')"]),
+        Unit(prop, MOD + "NamesVisitor.find", nvf_setup, nvf_post, never, trusted=["NodeVisitor.visit reaches every Name below the node in source order (visit_Name appends its id); _util.unique keeps first occurrences in order"]),
     ]
 
 
-CARRIES = {"C12": [":evaluate_postponed_annotations", ":get_types", ":type_requires_eval", ":has_subtypes"],
-           "C13": [":evaluate_postponed_annotations", ":get_types"]}
+_ALL = [":evaluate_postponed_annotations", ":get_types", ":get_arg_type", ":resolve_forward_refs[no-forward-reference-paths]",
+        "resolve_subtypes_forward_refs@if(forward_arg in aliases)", "resolve_subtypes_forward_refs@if(subtypes != list(typehint.__args__))", ":type_requires_eval", ":has_subtypes", ":get_global_vars",
+        "TypeCheckingVisitor.visit_Import", "TypeCheckingVisitor.visit_ImportFrom", "TypeCheckingVisitor.visit_If", "TypeCheckingVisitor.generic_visit", "TypeCheckingVisitor.update_aliases", ":get_return_type",
+        "BackportTypeHints.new_name_load", "BackportTypeHints.visit_Constant", "BackportTypeHints.visit_BinOp", "BackportTypeHints.append_union_elts", "BackportTypeHints.visit_Subscript", "BackportTypeHints.backport",
+        "NamesVisitor.find"]
+CARRIES = {"C12": list(_ALL),
+           # C13 carries the units whose clauses are all discharged; the five with a clause the shipped code violates are carried by C12, where the findings are listed
+           "C13": [":evaluate_postponed_annotations", ":resolve_forward_refs[no-forward-reference-paths]", "resolve_subtypes_forward_refs@if(forward_arg in aliases)", "TypeCheckingVisitor.visit_If"]}
